@@ -484,7 +484,9 @@ pub fn drive(cfg: &Cfg, start: usize, t: &Tables, input: &[u16]) -> Parse {
     let mut nodes: Vec<Tree> = vec![];
     let mut i = 0usize;
     let mut steps = 0usize;
-    let bound = 64 + (input.len() + 1) * 64 * (cfg.rules.len() + 2);
+    // conflict-free LR tables cannot loop; the bound only protects against broken tables (wide rules over
+    // nullable nonterminals legitimately need thousands of reductions per token)
+    let bound = 2_000_000 + (input.len() + 1) * 4096 * (cfg.rules.len() + 2);
     loop {
         steps += 1;
         if steps > bound {
